@@ -7,7 +7,7 @@
         {"ok":{"images":[{"path":"<hex>"|null,"tmp":"<hex>"|null}…],"finished":bool,"err":bool,"pending":n}}
         representative post-crash images after the first k system calls (deduplicated).
     {"op":"fs.shapes"} → {"ok":[{"old":"<hex>"|null,"chunks":["<hex>"…],"stale":bool}…]}
-        the content shapes of `AtomicSearch.shapes` (the ones of the kernel-checked test `search_expected_safe`).
+        the content shapes of `AtomicSearch.shapes` (the ones named in `Props.C05.search_expected_safe`).
     {"op":"fs.search","steps":[{"call":"<name>","onErr":"<name>"}|{"defer":["<name>"…]}…]|"expected",
                       "tmp":"path+.tmp"|"path","old":"<hex>"|null,"chunks":["<hex>"…],"stale":bool} →
         {"ok":"safe","explored":N}                       no counterexample among N post-crash states
